@@ -10,8 +10,19 @@ package verifier
 // a supplied active-authentication challenge that differs from the recorded nonce is a hard error; the whole call runs
 // with the verifier's mutex held and releases it on every path.
 
+// C20, lock discipline of a shared Verifier: the challenge is only touched with the verifier's mutex held by the current
+// call (or on a verifier allocated in this call); the trust store reference is never written after construction.
+//@ guarded Verifier.aaChallenge by mu for C20
+//@ immutable Verifier.cscaCertPool for C20
+
+//@ func NewVerifier
+//@   props C20 C14
+//@   ensures "new-unlocked-verifier": result != nil && fresh(result) && !result.mu.held && result.cscaCertPool == cscaCertPool && result.aaChallenge == nil
+//@   assigns nothing
+//@   safety all
+
 //@ func (v *Verifier) WithAAChallenge
-//@   props C14 C07
+//@   props C14 C07 C20
 //@   requires v != nil && !v.mu.held
 //@   ensures "eight-octets-or-rejected": (result1 == nil) == (len(challenge) == 8)
 //@   ensures "stored-as-given": result1 == nil ==> result0 == v && v.aaChallenge === challenge && v.aaChallenge != nil
@@ -21,7 +32,7 @@ package verifier
 //@   safety all
 
 //@ func (v *Verifier) Verify
-//@   props C14 C07
+//@   props C14 C07 C20
 //@   requires v != nil && !v.mu.held && v.cscaCertPool != nil
 //@   ensures "lock-released": !v.mu.held
 //@   ensures "document-or-error": (result0 != nil) == (result1 == nil)
